@@ -821,3 +821,281 @@ Proof.
     + exact Hsw.
 Qed.
 Print Assumptions tr_ec_quit_rotates.
+
+(* ================================================================== the "buffer modified" guard of ec_exec / ec_make / ec_edit / ec_buffer
+   ec_exec, ec_make:   if (!xwa && bufs_modified(0, "buffer modified")) return 1;                         (first statement)
+   ec_edit:            if (!strchr(cmd, '!')) if (xb && !xwa && bufs_modified(0, "buffer modified")) return 1;   (first statement)
+   ec_buffer:          if (!xwa && strchr(cmd, '!') == NULL) if (bufs_modified(0, ...)) return 1;  bufs_switch(idx);
+   One lemma per statement shape (for every memory, table, oracle), one shape lemma per call site (the function's body IS: its local
+   arrays, then the guard, then the rest -- by reflexivity on the translated text), one theorem per call site for the refusing case. *)
+Lemma x_none_show : nth_error cprog X_ex_show = None. Proof. exact x_ex_show_none. Qed.
+Definition bm_call : expr := ECall F_bufs_modified [EConst 0; EGlob G_bm].
+Definition guard_xwa : stmt :=
+  SIf (EAndAlso (ELNot (ELoad (Some I32) (EGlob G_xwa))) bm_call) (SReturn (Some (EConst 1))) SSkip.
+Definition guard_edit : stmt :=
+  SIf (ELNot (EBuiltin BStrchr [ELocal 1; EConst 33]))
+      (SIf (EAndAlso (EAndAlso (ECall F_ex_lbuf []) (ELNot (ELoad (Some I32) (EGlob G_xwa)))) bm_call) (SReturn (Some (EConst 1))) SSkip) SSkip.
+Definition guard_buffer (idx : nat) : stmt :=
+  SSeq (SIf (EAndAlso (ELNot (ELoad (Some I32) (EGlob G_xwa))) (EPtrCmp OEq (EBuiltin BStrchr [ELocal 1; EConst 33]) (EConst 0)))
+            (SIf bm_call (SReturn (Some (EConst 1))) SSkip) SSkip)
+       (SExpr (ECall F_bufs_switch [ELocal idx])).
+
+(* the call sites: the translated bodies have exactly this shape *)
+Definition ec_exec_rest : stmt := match fn_body cf_ec_exec with SSeq _ (SSeq _ r) => r | _ => SSkip end.
+Definition ec_make_rest : stmt := match fn_body cf_ec_make with SSeq _ (SSeq _ r) => r | _ => SSkip end.
+Definition ec_edit_rest : stmt := match fn_body cf_ec_edit with SSeq _ (SSeq _ (SSeq _ r)) => r | _ => SSkip end.
+Lemma ec_exec_shape : fn_body cf_ec_exec =
+  SSeq (SSeq (SExpr (ESetLocal 4 (EBuiltin BMalloc [EConst 1]))) (SExpr (ESetLocal 5 (EBuiltin BMalloc [EConst 1])))) (SSeq guard_xwa ec_exec_rest).
+Proof. reflexivity. Qed.
+Lemma ec_make_shape : fn_body cf_ec_make = SSeq (SExpr (ESetLocal 4 (EBuiltin BMalloc [EConst 512]))) (SSeq guard_xwa ec_make_rest).
+Proof. reflexivity. Qed.
+Lemma ec_edit_shape : fn_body cf_ec_edit =
+  SSeq (SExpr (ESetLocal 4 (EBuiltin BMalloc [EConst 512]))) (SSeq (SExpr (ESetLocal 5 (EBuiltin BMalloc [EConst 128]))) (SSeq guard_edit ec_edit_rest)).
+Proof. reflexivity. Qed.
+(* ec_buffer: the calls of bufs_switch in the body, and the statement the only one sits in *)
+Fixpoint calls_e (f : nat) (e : expr) {struct e} : nat :=
+  match e with
+  | EConst _ | ELocal _ | EGlob _ | EIncLocal _ _ _ _ => 0
+  | EUn _ _ a | ECast _ a | ELNot a | ELoad _ a | ESetLocal _ a | EIncMem _ _ _ a => calls_e f a
+  | EBin _ _ a b | EPtrAdd _ a b | EPtrDiff _ a b | EPtrCmp _ a b | EAndAlso a b | EOrElse a b | EStore _ a b | EComma a b => calls_e f a + calls_e f b
+  | ECond c a b => calls_e f c + calls_e f a + calls_e f b
+  | ECall g args => (if Nat.eqb g f then 1 else 0) + (fix go (l : list expr) : nat := match l with [] => 0 | a :: r => calls_e f a + go r end) args
+  | EBuiltin _ args => (fix go (l : list expr) : nat := match l with [] => 0 | a :: r => calls_e f a + go r end) args
+  end%nat.
+Definition calls_o (f : nat) (e : option expr) : nat := match e with Some a => calls_e f a | None => 0%nat end.
+Fixpoint calls_s (f : nat) (s : stmt) {struct s} : nat :=
+  match s with
+  | SSkip | SBreak | SContinue => 0
+  | SExpr e => calls_e f e
+  | SSeq a b => calls_s f a + calls_s f b
+  | SIf c a b => calls_e f c + calls_s f a + calls_s f b
+  | SWhile c b | SDoWhile b c => calls_e f c + calls_s f b
+  | SFor c st b => calls_o f c + calls_o f st + calls_s f b
+  | SReturn e => calls_o f e
+  | SSwitch e segs => calls_e f e + (fix go (l : list (list (option Z) * stmt)) : nat := match l with [] => 0 | (_, a) :: r => calls_s f a + go r end) segs
+  end%nat.
+Definition ec_buffer_sw : stmt :=
+  match fn_body cf_ec_buffer with
+  | SSeq _ (SSeq _ (SSeq (SIf _ _ (SIf _ _ (SIf _ _ (SSeq _ (SSeq _ (SSeq _ (SIf _ sw _))))))) _)) => sw
+  | _ => SSkip
+  end.
+Lemma ec_buffer_shape : ec_buffer_sw = guard_buffer 10 /\ calls_s F_bufs_switch (fn_body cf_ec_buffer) = 1%nat /\ calls_s F_bufs_switch ec_buffer_sw = 1%nat.
+Proof. split; [reflexivity|]. split; vm_compute; reflexivity. Qed.
+
+Lemma eval_andalso call a b st : eval call (EAndAlso a b) st =
+  (do (v, st1) <- eval call a st; do t <- truth v;
+   if t then (do (w, st2) <- eval call b st1; do u <- truth w; Ok (VInt (b2z u), st2)) else Ok (VInt 0, st1)).
+Proof. reflexivity. Qed.
+
+Section Guards.
+  Variable ext : nat -> list val -> mem -> res (val * mem).
+  Variables (t : list cslot) (d fuel : nat).
+  Hypothesis Ht : tab_ok t.
+  Let call := callx ext cprog fuel (S (S (S d))).
+  Variable B : Z.
+  Hypothesis HB : B <= 2147483647.
+
+  (* bufs_modified(0, "buffer modified") as an expression: what it answers and leaves, by the state of slot 0 *)
+  Definition bm_spec (h : option hent) (m : mem) (v : Z) (m' : mem) : Prop :=
+    match h with
+    | None => v = 0 /\ m' = m
+    | Some (bl, blk, lb) => if snd (lbuf_modified lb) then v = 1 /\ exists u, ext X_ex_show [VPtr G_bm 0] (bump_mem m bl blk lb) = Ok (u, m')
+                            else v = 0 /\ m' = bump_mem m bl blk lb
+    end.
+  Lemma bm_call_ok h m v m' ls : tab_at m t -> slot_heap B m (nths t 0) h -> cell_at m G_xaw 0 ->
+    (forall bl blk lb, h = Some (bl, blk, lb) -> bl <> G_xaw) -> bm_spec h m v m' ->
+    eval call bm_call (mkst ls m) = Ok (VInt v, mkst ls m').
+  Proof.
+    intros Hm Hh Haw Hna Hsp. unfold bm_call, call. xcbn. change (VInt 0) with (VInt (Z.of_nat 0)).
+    destruct h as [[[bl blk] lb]|]; cbn [slot_heap bm_spec] in *.
+    - destruct Hh as (Hc & R & Hi & Hu). destruct (snd (lbuf_modified lb)) eqn:Hfl.
+      + destruct Hsp as [-> [u Hshow]].
+        rewrite (tr_bufs_modified_dirty ext m t 0 bl blk lb (VPtr G_bm 0) m' d fuel Hm Ht ltac:(lia) Hc R Hi ltac:(lia) Hfl (Hna _ _ _ eq_refl) Haw)
+          by (try (right; eauto); unfold show_call; cbn [is_null]; eauto). reflexivity.
+      + destruct Hsp as [-> ->].
+        rewrite (tr_bufs_modified_clean ext m t 0 bl blk lb (VPtr G_bm 0) d fuel Hm Ht ltac:(lia) Hc R Hi ltac:(lia) Hfl). reflexivity.
+    - destruct Hsp as [-> ->]. unfold call. change (S (S (S d))) with (S (S (S d))).
+      rewrite (tr_bufs_modified_null ext m t 0 (VPtr G_bm 0) (S (S d)) fuel Hm Ht ltac:(lia) Hh). reflexivity.
+  Qed.
+
+  (* if (!xwa && bufs_modified(0, "buffer modified")) return 1;   -- ec_exec, ec_make *)
+  Lemma guard_xwa_ok h m v m' ls fuel' : tab_at m t -> slot_heap B m (nths t 0) h -> cell_at m G_xaw 0 -> cell_at m G_xwa 0 ->
+    (forall bl blk lb, h = Some (bl, blk, lb) -> bl <> G_xaw) -> bm_spec h m v m' ->
+    exec call fuel' guard_xwa (mkst ls m) = if v =? 0 then ONormal (mkst ls m') else OReturn (VInt 1) (mkst ls m').
+  Proof.
+    intros Hm Hh Haw Hwa Hna Hsp. unfold guard_xwa. rewrite exec_if, eval_andalso.
+    assert (Hx : eval call (ELNot (ELoad (Some I32) (EGlob G_xwa))) (mkst ls m) = Ok (VInt 1, mkst ls m)).
+    { xcbn. rewrite (load_cell m G_xwa 0 Hwa). xcbn. reflexivity. }
+    rewrite Hx. cbn [bind truth Z.eqb negb].
+    rewrite (bm_call_ok h m v m' ls Hm Hh Haw Hna Hsp). cbn [bind truth]. destruct (v =? 0); cbn [negb b2z truth Z.eqb]; xstep; reflexivity.
+  Qed.
+  (* writeany: nothing is asked *)
+  Lemma guard_xwa_wa m a ls fuel' : cell_at m G_xwa a -> int_ok a -> a <> 0 -> exec call fuel' guard_xwa (mkst ls m) = ONormal (mkst ls m).
+  Proof.
+    intros Hwa Ia Ha. unfold guard_xwa. rewrite exec_if. xcbn. rewrite (load_cell m G_xwa a Hwa). xcbn. rewrite (wrap_int_ok a Ia).
+    destruct (Z.eqb_spec a 0) as [E|_]; [contradiction|]. cbn [negb b2z Z.eqb truth]. xstep. reflexivity.
+  Qed.
+
+  (* if (!strchr(cmd, '!')) if (xb && !xwa && bufs_modified(0, "buffer modified")) return 1;   -- ec_edit; local 1 is cmd *)
+  Lemma guard_edit_ok h m v m' cb cmd l0 ltl fuel' : tab_at m t -> slot_heap B m (nths t 0) h -> cell_at m G_xaw 0 -> cell_at m G_xwa 0 ->
+    (forall bl blk lb, h = Some (bl, blk, lb) -> bl <> G_xaw) -> bm_spec h m v m' ->
+    str_at m cb cmd -> nonul cmd -> find_byte 33 cmd = None ->
+    exec call fuel' guard_edit (mkst (l0 :: VPtr cb 0 :: ltl) m)
+    = if v =? 0 then ONormal (mkst (l0 :: VPtr cb 0 :: ltl) m') else OReturn (VInt 1) (mkst (l0 :: VPtr cb 0 :: ltl) m').
+  Proof.
+    intros Hm Hh Haw Hwa Hna Hsp Hcmd Ncmd Hb. pose proof Ht as [Hl Hs]. unfold guard_edit. rewrite exec_if. xcbn.
+    rewrite (strchr0 m cb cmd 33 33 eq_refl Hcmd Ncmd) by lia. rewrite Hb. xcbn. rewrite exec_if, eval_andalso, eval_andalso.
+    set (ls := l0 :: VPtr cb 0 :: ltl).
+    assert (Hxb : eval call (ECall F_ex_lbuf []) (mkst ls m) = Ok (cs_lb (nths t 0), mkst ls m)).
+    { unfold call. xcbn. rewrite callx_S. cbn [nth_error cprog F_ex_lbuf cf_ex_lbuf fn_nparams fn_nlocals fn_body length Nat.eqb Nat.sub repeat app]. xstep.
+      slot_off 0%nat 1%nat. rewrite (tab_load m t 0 1 (cs_lb (nths t 0)) _ Hm Hs) by (try lia; reflexivity).
+      destruct h as [[[bl blk] lb]|]; cbn [slot_heap] in Hh; [destruct Hh as (-> & _)|rewrite Hh]; reflexivity. }
+    rewrite Hxb. cbn [bind].
+    destruct h as [[[bl blk] lb]|] eqn:Eh; cbn [slot_heap] in Hh.
+    - destruct Hh as (Hc & Hrest). rewrite Hc. cbn [truth bind].
+      assert (Hx : eval call (ELNot (ELoad (Some I32) (EGlob G_xwa))) (mkst ls m) = Ok (VInt 1, mkst ls m)).
+      { xcbn. rewrite (load_cell m G_xwa 0 Hwa). xcbn. reflexivity. }
+      rewrite Hx. cbn [bind truth Z.eqb negb b2z].
+      rewrite (bm_call_ok (Some (bl, blk, lb)) m v m' ls Hm (conj Hc Hrest) Haw Hna Hsp). cbn [bind truth].
+      destruct (v =? 0); cbn [negb b2z truth Z.eqb]; xstep; reflexivity.
+    - (* no buffer at all (xb == NULL): nothing to lose *)
+      rewrite Hh. cbn [truth bind Z.eqb negb b2z]. cbn [bm_spec] in Hsp. destruct Hsp as [-> ->]. xstep. reflexivity.
+  Qed.
+  Lemma guard_edit_bang m cb cmd k l0 ltl fuel' : str_at m cb cmd -> nonul cmd -> find_byte 33 cmd = Some k ->
+    exec call fuel' guard_edit (mkst (l0 :: VPtr cb 0 :: ltl) m) = ONormal (mkst (l0 :: VPtr cb 0 :: ltl) m).
+  Proof.
+    intros Hcmd Ncmd Hb. unfold guard_edit. rewrite exec_if. xcbn.
+    rewrite (strchr0 m cb cmd 33 33 eq_refl Hcmd Ncmd) by lia. rewrite Hb. xcbn. xstep. reflexivity.
+  Qed.
+  (* if (!xwa && strchr(cmd, '!') == NULL) if (bufs_modified(0, ...)) return 1;  bufs_switch(idx);   -- ec_buffer; local 1 is cmd *)
+  Lemma guard_buffer_ok h m v m' cb cmd l0 ltl idx fuel' : tab_at m t -> slot_heap B m (nths t 0) h -> cell_at m G_xaw 0 -> cell_at m G_xwa 0 ->
+    (forall bl blk lb, h = Some (bl, blk, lb) -> bl <> G_xaw) -> bm_spec h m v m' ->
+    str_at m cb cmd -> nonul cmd -> find_byte 33 cmd = None ->
+    exec call fuel' (guard_buffer idx) (mkst (l0 :: VPtr cb 0 :: ltl) m)
+    = if v =? 0 then exec call fuel' (SExpr (ECall F_bufs_switch [ELocal idx])) (mkst (l0 :: VPtr cb 0 :: ltl) m')
+      else OReturn (VInt 1) (mkst (l0 :: VPtr cb 0 :: ltl) m').
+  Proof.
+    intros Hm Hh Haw Hwa Hna Hsp Hcmd Ncmd Hb. unfold guard_buffer. rewrite exec_seq, exec_if, eval_andalso.
+    set (ls := l0 :: VPtr cb 0 :: ltl).
+    assert (Hx : eval call (ELNot (ELoad (Some I32) (EGlob G_xwa))) (mkst ls m) = Ok (VInt 1, mkst ls m)).
+    { xcbn. rewrite (load_cell m G_xwa 0 Hwa). xcbn. reflexivity. }
+    rewrite Hx. cbn [bind truth Z.eqb negb].
+    assert (Hy : eval call (EPtrCmp OEq (EBuiltin BStrchr [ELocal 1; EConst 33]) (EConst 0)) (mkst ls m) = Ok (VInt 1, mkst ls m)).
+    { unfold ls. xcbn. rewrite (strchr0 m cb cmd 33 33 eq_refl Hcmd Ncmd) by lia. rewrite Hb. xcbn. reflexivity. }
+    rewrite Hy. cbn [bind truth Z.eqb negb b2z]. rewrite exec_if.
+    rewrite (bm_call_ok h m v m' ls Hm Hh Haw Hna Hsp). cbn [truth]. destruct (v =? 0); cbn [negb]; xstep; reflexivity.
+  Qed.
+End Guards.
+
+(* ---- the memory behind the local arrays of a function (malloc'ed blocks appended): what was there is still there *)
+Lemma tab_at_app m x t : tab_at m t -> tab_at (m ++ x) t.
+Proof. intro H. unfold tab_at in *. rewrite nth_error_app1; [exact H|apply nth_error_Some; congruence]. Qed.
+Lemma cell_at_app m x g v : cell_at m g v -> cell_at (m ++ x) g v.
+Proof. intro H. unfold cell_at in *. rewrite nth_error_app1; [exact H|apply nth_error_Some; congruence]. Qed.
+Lemma str_at_app m x b s : str_at m b s -> str_at (m ++ x) b s.
+Proof. intro H. unfold str_at in *. rewrite nth_error_app1; [exact H|apply nth_error_Some; congruence]. Qed.
+Lemma slot_heap_app B m x cs h : slot_heap B m cs h -> slot_heap B (m ++ x) cs h.
+Proof.
+  destruct h as [[[bl blk] lb]|]; [|exact (fun H => H)]. intros (Hc & R & Hi & Hu). split; [exact Hc|]. split; [|split; assumption].
+  apply (lbuf_rep_frame m _ bl blk lb R).
+  - apply nth_error_app1. exact (rep_lt _ _ _ _ R).
+  - intros bh hblk _ Hb. rewrite nth_error_app1; [exact Hb|apply nth_error_Some; congruence].
+Qed.
+
+Definition ret_of (o : outcome) : res (val * mem) :=
+  match o with OReturn v st => Ok (v, memm st) | ONormal st => Ok (VUndef, memm st) | OErr x => Err x | _ => Err EShape end.
+
+(* ec_exec(loc, cmd, arg, txt), for every table, heap and oracle (writeany off): behind its two local ints the guard runs -- bm_spec: v, m' --;
+   when it answers non-zero (slot 0 holds a buffer reported modified) the function returns 1 at once: ex_pathexpand, cmd_exec, cmd_pipe,
+   lbuf_edit are not reached; the rest of the function runs only on v = 0 *)
+Theorem tr_ec_exec_head ext m t h loc cmd arg txt v m' B d fuel : B <= 2147483647 -> tab_at m t -> tab_ok t -> slot_heap B m (nths t 0) h ->
+  cell_at m G_xaw 0 -> cell_at m G_xwa 0 -> (forall bl blk lb, h = Some (bl, blk, lb) -> bl <> G_xaw) ->
+  let m0 := (m ++ [repeat VUndef 1]) ++ [repeat VUndef 1] in
+  bm_spec ext h m0 v m' ->
+  callx ext cprog fuel (S (S (S (S d)))) F_ec_exec [loc; cmd; arg; txt] m =
+  if v =? 0 then ret_of (exec (callx ext cprog fuel (S (S (S d)))) fuel ec_exec_rest
+                           (mkst [loc; cmd; arg; txt; VPtr (length m) 0; VPtr (S (length m)) 0; VUndef; VUndef; VUndef] m'))
+  else Ok (VInt 1, m').
+Proof.
+  intros HB Hm Ht Hh Haw Hwa Hna m0 Hsp. rewrite callx_S. cbn [nth_error cprog F_ec_exec]. rewrite ec_exec_shape.
+  cbn [fn_nparams fn_nlocals cf_ec_exec length Nat.eqb Nat.sub repeat app].
+  rewrite exec_seq, exec_seq, exec_expr. xcbn. rewrite (malloc_ok m 1) by lia. xcbn. rewrite exec_expr. xcbn.
+  rewrite (malloc_ok (m ++ [repeat VUndef (Z.to_nat 1)]) 1) by lia. xcbn. change (Z.to_nat 1) with 1%nat. fold m0.
+  replace (length (m ++ [repeat VUndef 1])) with (S (length m)) by (rewrite app_length; cbn [length]; lia).
+  rewrite exec_seq.
+  rewrite (guard_xwa_ok ext t d fuel Ht B HB h m0 v m' _ fuel); try assumption;
+    try (unfold m0; repeat first [apply tab_at_app | apply cell_at_app | apply slot_heap_app]; assumption).
+  destruct (v =? 0); reflexivity.
+Qed.
+
+Theorem tr_ec_make_head ext m t h loc cmd arg txt v m' B d fuel : B <= 2147483647 -> tab_at m t -> tab_ok t -> slot_heap B m (nths t 0) h ->
+  cell_at m G_xaw 0 -> cell_at m G_xwa 0 -> (forall bl blk lb, h = Some (bl, blk, lb) -> bl <> G_xaw) ->
+  let m0 := m ++ [repeat VUndef 512] in
+  bm_spec ext h m0 v m' ->
+  callx ext cprog fuel (S (S (S (S d)))) F_ec_make [loc; cmd; arg; txt] m =
+  if v =? 0 then ret_of (exec (callx ext cprog fuel (S (S (S d)))) fuel ec_make_rest (mkst [loc; cmd; arg; txt; VPtr (length m) 0; VUndef] m'))
+  else Ok (VInt 1, m').
+Proof.
+  intros HB Hm Ht Hh Haw Hwa Hna m0 Hsp. rewrite callx_S. cbn [nth_error cprog F_ec_make]. rewrite ec_make_shape.
+  cbn [fn_nparams fn_nlocals cf_ec_make length Nat.eqb Nat.sub repeat app].
+  rewrite exec_seq, exec_expr. xcbn. rewrite (malloc_ok m 512) by lia. xcbn. change (Z.to_nat 512) with 512%nat. fold m0.
+  rewrite exec_seq.
+  rewrite (guard_xwa_ok ext t d fuel Ht B HB h m0 v m' _ fuel); try assumption;
+    try (unfold m0; repeat first [apply tab_at_app | apply cell_at_app | apply slot_heap_app]; assumption).
+  destruct (v =? 0); reflexivity.
+Qed.
+
+(* ec_edit(loc, cmd, arg, txt) without `!` in cmd: the guard is the FIRST thing behind the two local arrays -- before ex_plus and
+   ex_pathexpand look at the argument, whatever the argument is (an empty one included) *)
+Theorem tr_ec_edit_head ext m t h loc cb cmd arg txt v m' B d fuel : B <= 2147483647 -> tab_at m t -> tab_ok t -> slot_heap B m (nths t 0) h ->
+  cell_at m G_xaw 0 -> cell_at m G_xwa 0 -> (forall bl blk lb, h = Some (bl, blk, lb) -> bl <> G_xaw) ->
+  str_at m cb cmd -> nonul cmd -> find_byte 33 cmd = None ->
+  let m0 := (m ++ [repeat VUndef 512]) ++ [repeat VUndef 128] in
+  bm_spec ext h m0 v m' ->
+  callx ext cprog fuel (S (S (S (S d)))) F_ec_edit [loc; VPtr cb 0; arg; txt] m =
+  if v =? 0 then ret_of (exec (callx ext cprog fuel (S (S (S d)))) fuel ec_edit_rest
+                           (mkst [loc; VPtr cb 0; arg; txt; VPtr (length m) 0; VPtr (S (length m)) 0; VUndef; VUndef; VUndef] m'))
+  else Ok (VInt 1, m').
+Proof.
+  intros HB Hm Ht Hh Haw Hwa Hna Hcmd Ncmd Hb m0 Hsp. rewrite callx_S. cbn [nth_error cprog F_ec_edit]. rewrite ec_edit_shape.
+  cbn [fn_nparams fn_nlocals cf_ec_edit length Nat.eqb Nat.sub repeat app].
+  rewrite exec_seq, exec_expr. xcbn. rewrite (malloc_ok m 512) by lia. xcbn. rewrite exec_seq, exec_expr. xcbn.
+  rewrite (malloc_ok (m ++ [repeat VUndef (Z.to_nat 512)]) 128) by lia. xcbn. change (Z.to_nat 512) with 512%nat. change (Z.to_nat 128) with 128%nat. fold m0.
+  replace (length (m ++ [repeat VUndef 512])) with (S (length m)) by (rewrite app_length; cbn [length]; lia).
+  rewrite exec_seq.
+  rewrite (guard_edit_ok ext t d fuel Ht B HB h m0 v m' cb cmd loc _ fuel); try assumption;
+    try (unfold m0; repeat first [apply tab_at_app | apply cell_at_app | apply slot_heap_app | apply str_at_app]; assumption).
+  destruct (v =? 0); reflexivity.
+Qed.
+(* with `!`: no question is asked, the rest runs on the memory as it is *)
+Theorem tr_ec_edit_bang ext m loc cb cmd arg txt k d fuel : str_at m cb cmd -> nonul cmd -> find_byte 33 cmd = Some k ->
+  let m0 := (m ++ [repeat VUndef 512]) ++ [repeat VUndef 128] in
+  callx ext cprog fuel (S (S (S (S d)))) F_ec_edit [loc; VPtr cb 0; arg; txt] m =
+  ret_of (exec (callx ext cprog fuel (S (S (S d)))) fuel ec_edit_rest
+            (mkst [loc; VPtr cb 0; arg; txt; VPtr (length m) 0; VPtr (S (length m)) 0; VUndef; VUndef; VUndef] m0)).
+Proof.
+  intros Hcmd Ncmd Hb m0. rewrite callx_S. cbn [nth_error cprog F_ec_edit]. rewrite ec_edit_shape.
+  cbn [fn_nparams fn_nlocals cf_ec_edit length Nat.eqb Nat.sub repeat app].
+  rewrite exec_seq, exec_expr. xcbn. rewrite (malloc_ok m 512) by lia. xcbn. rewrite exec_seq, exec_expr. xcbn.
+  rewrite (malloc_ok (m ++ [repeat VUndef (Z.to_nat 512)]) 128) by lia. xcbn. change (Z.to_nat 512) with 512%nat. change (Z.to_nat 128) with 128%nat. fold m0.
+  replace (length (m ++ [repeat VUndef 512])) with (S (length m)) by (rewrite app_length; cbn [length]; lia).
+  rewrite exec_seq.
+  rewrite (guard_edit_bang ext d fuel m0 cb cmd k loc _ fuel); [reflexivity| |exact Ncmd|exact Hb].
+  unfold m0. repeat apply str_at_app. exact Hcmd.
+Qed.
+
+(* ec_buffer: the one call of bufs_switch in the function (ec_buffer_shape: calls_s = 1, and it sits in ec_buffer_sw) is behind the guard:
+   without `!`, writeany off, on a buffer reported modified the statement returns 1 and bufs_switch is not reached *)
+Theorem tr_ec_buffer_guard ext t h m v m' cb cmd l0 ltl B d fuel fuel' : tab_ok t -> B <= 2147483647 ->
+  tab_at m t -> slot_heap B m (nths t 0) h -> cell_at m G_xaw 0 -> cell_at m G_xwa 0 ->
+  (forall bl blk lb, h = Some (bl, blk, lb) -> bl <> G_xaw) -> bm_spec ext h m v m' ->
+  str_at m cb cmd -> nonul cmd -> find_byte 33 cmd = None ->
+  exec (callx ext cprog fuel (S (S (S d)))) fuel' ec_buffer_sw (mkst (l0 :: VPtr cb 0 :: ltl) m)
+  = if v =? 0 then exec (callx ext cprog fuel (S (S (S d)))) fuel' (SExpr (ECall F_bufs_switch [ELocal 10])) (mkst (l0 :: VPtr cb 0 :: ltl) m')
+    else OReturn (VInt 1) (mkst (l0 :: VPtr cb 0 :: ltl) m').
+Proof.
+  intros Ht HB Hm Hh Haw Hwa Hna Hsp Hcmd Ncmd Hb. destruct ec_buffer_shape as [-> _].
+  apply (guard_buffer_ok ext t d fuel Ht B HB h m v m' cb cmd l0 ltl 10 fuel'); assumption.
+Qed.
+Print Assumptions tr_ec_edit_head.
+Print Assumptions tr_ec_buffer_guard.
